@@ -1142,6 +1142,59 @@ def mon_c02_two(spec, run):
 MONITORS["C02two"] = mon_c02_two
 
 
+def mon_c09_updates(spec, run):
+    """update callbacks of real subunit objects on a live connection (reader thread + the thread that initialises): the invocations of an
+    object's callback are, in order, reports that arrived for its subunit and modelled functions — each at most once, none invented, none
+    out of arrival order — and every report that arrived after initialize() had returned is among them"""
+    bad = []
+    tr = run.trace
+    inits = spec.get("inits") or [spec]
+    rets = api_rets(tr, "sub_initialize")
+    lines = lines_by_read(tr)
+    for k, it in enumerate(inits):
+        if it.get("same_as") is not None:
+            continue
+        mine = [r for r in rets if r["idx"] == k or (inits[r["idx"]].get("same_as") == k if r["idx"] < len(inits) else False)]
+        if not mine or mine[-1]["exc"] is not None:
+            continue
+        ret = mine[-1]
+        sid, readable = it.get("expect_id"), set(it.get("readable") or [])
+        t_end = ret["t"] + int((spec.get("settle", 1.0) - 0.25) * 1e6)
+        L = []
+        for rseq, wend, text in lines:
+            m = _LINE.fullmatch(text)
+            if not m or m.group(1) != sid or m.group(2) not in readable:
+                continue
+            d = decode_show(it["class"], m.group(2), m.group(3))
+            required = d is not None and rseq > ret["seq"] and _t(tr, rseq) < t_end
+            L.append((m.group(2), d, required, text))
+        G = [(e["fn"], e["val"]) for e in tr if e["k"] == "upd_cb" and e.get("obj") == k]
+        stale = next((e for e in tr if e["k"] == "upd_cb" and e.get("obj") == k and "cache" in e and e["cache"] != e["val"]), None)
+        if stale is not None:
+            bad.append(("cache-first", f"{it['class']}: the update callback was invoked with {stale['fn']}={stale['val']} while the attribute read {stale['cache']} "
+                                       f"(a callback runs after the cache reflects the value it announces)"))
+            continue
+        n, g = len(L), len(G)
+        ok = [[False] * (g + 2) for _ in range(n + 2)]
+        ok[n][g] = True
+        for i in range(n - 1, -1, -1):
+            fn, d, req, _ = L[i]
+            for j in range(g, -1, -1):
+                v = False
+                if j < g and G[j][0] == fn and (d is None or G[j][1] == d) and ok[i + 1][j + 1]:
+                    v = True
+                elif not req and ok[i + 1][j]:
+                    v = True
+                ok[i][j] = v
+        if not ok[0][0]:
+            bad.append(("update-callbacks", f"{it['class']}: the update callback was invoked with {G[:8]} for the reports {[(a, b, 'after initialize()' if c else 'during/before') for a, b, c, _ in L][:8]} "
+                                            f"(arrival order): not the arrived values once each in arrival order, with all those that arrived after initialize() had returned"))
+    return bad
+
+
+MONITORS["C09u"] = mon_c09_updates
+
+
 def second_session(trace):
     """the part of a trace that belongs to the second connect() on the same connection object, presented like a first session (its threads
     R2 / S2 renamed to R / S)"""
